@@ -35,19 +35,25 @@ def run(tier: str) -> Check:
     ]
     repo, rep = fill(check, tier, floors={"skeleton_variants": 45, "skeleton_paths": 120, "rule_skeleton_variants": 24, "trivia_skeleton_variants": 5, "diff_operators": 19, "diff_skeletons": 28, "diff_scripts": 230, "gen_diff_scenarios": 300})
     masks = ops.modifier_masks(repo)
-    mods = modcheck.module_skeletons(repo, masks)
-    for label, sk, ents in mods:
-        modcheck.check_module(check, label, sk, ents, repo)
-    holes = list(rep.hygiene)
-    for _, sk, _ in mods:
-        holes.extend(sk.holes)
-    gencheck.hygiene(check, holes)
-    gencheck.naming(check, repo, mods)
-    gencheck.constant_parity(check, repo)
-    gencheck.determinism(check, repo)
-    gencheck.builder_contract(check, repo)
-    check.floor("module_skeletons", 5)
-    check.floor("template_holes", 300)
-    check.floor("compiled_constant_pairs", 4)
-    check.floor("generator_functions", 35)
+    mods: list = []
+
+    def modules() -> None:
+        mods.extend(modcheck.module_skeletons(repo, masks))
+        for label, sk, ents in mods:
+            modcheck.check_module(check, label, sk, ents, repo)
+        holes = list(rep.hygiene)
+        for _, sk, _ in mods:
+            holes.extend(sk.holes)
+        gencheck.hygiene(check, holes)
+        gencheck.naming(check, repo, mods)
+
+    ok = check.attempt(modules)
+    ok = check.attempt(lambda: gencheck.constant_parity(check, repo)) and ok
+    ok = check.attempt(lambda: gencheck.determinism(check, repo)) and ok
+    ok = check.attempt(lambda: gencheck.builder_contract(check, repo)) and ok
+    if ok and not getattr(check, "deferred", []):
+        check.floor("module_skeletons", 5)
+        check.floor("template_holes", 300)
+        check.floor("compiled_constant_pairs", 4)
+        check.floor("generator_functions", 35)
     return check
